@@ -237,6 +237,9 @@ def xicor_score_variables_plan(
     d_col_set = set(d.column_names)
     assert y_name in d_col_set
     assert numpy.all([c in d_col_set for c in x_vars])
+    # columns this plan adds for its own use
+    assert "_da_xicor_tmp_order" not in d_col_set
+    assert "_da_xicor_tmp_index" not in d_col_set
     assert isinstance(n_rep, int)
     record_map = RecordMap(
         blocks_out=RecordSpecification(
